@@ -53,6 +53,9 @@ def case_strategy(draw: Any) -> Dict[str, Any]:
         "trigger_after": draw(st.sampled_from([0.2, 1.5, 4.0])),
         # the "message" of *.failed is optional in the lifespan specification
         "failed_message": draw(st.booleans()),
+        # whether the lifespan application stores anything: an empty state is copied per
+        # connection just the same
+        "boot_state": draw(st.sampled_from([True, True, False])),
     }
 
 
@@ -64,7 +67,8 @@ def _failed(typ: str, case: Dict[str, Any]) -> dict:
 
 
 def lifespan_program(case: Dict[str, Any]) -> list:
-    prog: list = [["recv"], ["set_state", "boot", 7], ["sleep", case["startup_delay"]]]
+    prog: list = [["recv"]] + ([["set_state", "boot", 7]] if case.get("boot_state", True) else []) \
+        + [["sleep", case["startup_delay"]]]
     s = case["startup"]
     if s == "complete":
         prog.append(["send", {"type": "lifespan.startup.complete"}])
@@ -218,7 +222,7 @@ def judge(case: Dict[str, Any], res: Any) -> None:
     for i in sorted(https, key=lambda i: i.start_seq):
         idx = int(i.scope.get("path")[2:])
         cid = val["conn_of"].get(idx)
-        want = {"boot": 7}
+        want = {"boot": 7} if case.get("boot_state", True) else {}
         if cid in last_on_conn:
             want["seen"] = last_on_conn[cid]
         last_on_conn[cid] = idx
@@ -227,7 +231,7 @@ def judge(case: Dict[str, Any], res: Any) -> None:
             raise Violation("connection_state_not_isolated", f"{i.scope.get('path')} (connection "
                             f"{cid}) started with state {st_}, expected {want}", **tag)
     for t, snap in L.state_snaps:
-        if snap != {"boot": 7}:
+        if snap != ({"boot": 7} if case.get("boot_state", True) else {}):
             raise Violation("lifespan_state_polluted", f"state at shutdown {snap}", **tag)
     # lifespan.shutdown exactly once (when the lifespan application is still there), not early
     downs = [m for m in L.received if m["type"] == "lifespan.shutdown"]
